@@ -47,14 +47,19 @@ def main():
     out, nmod = sys.argv[1], int(sys.argv[2])
     libdir = os.path.dirname(os.__file__)
     n = 0
+    pair_src = "class Stack:\n    def size(self):\n        return len(self.items)\n\nclass Queue:\n    def size(self):\n        return len(self.items)\n\ndef f(a, /, b, *, c):\n    return lambda: a\n"
+    extra = [("pair_a", compile(pair_src, "pkg_a/geometry.py", "exec")), ("pair_b", compile(pair_src, "pkg_b/geometry.py", "exec"))]
     with open(out, "w") as fh:
-        for m in MODS[:nmod]:
-            src = os.path.join(libdir, m + ".py")
-            if not os.path.exists(src):
-                src = os.path.join(libdir, m, "__init__.py")
+        for m in ["<pair_a>", "<pair_b>"] + MODS[:nmod]:
+            if m.startswith("<pair"):
+                top = dict(extra)[m.strip("<>")]
+            else:
+                src = os.path.join(libdir, m + ".py")
                 if not os.path.exists(src):
-                    continue
-            top = compile(open(src, "rb").read(), src, "exec", dont_inherit=True)
+                    src = os.path.join(libdir, m, "__init__.py")
+                    if not os.path.exists(src):
+                        continue
+                top = compile(open(src, "rb").read(), src, "exec", dont_inherit=True)
             for path, co in walk(top):
                 r = {"id": "%s#%s" % (m, path), "host": H, "native": fields(co), "newname": ""}
                 try:
